@@ -420,8 +420,16 @@ impl Ctx {
         });
         if let Some((reason, value)) = fail {
             // re-check the shrunk case with the plain oracle (no proptest involved)
-            let mut obs = Obs::default();
-            let again = self.resolve(check(&value, &mut obs));
+            // (up to three attempts: with concurrent deliveries a genuine failure need not show
+            // on every run; a case that never fails again is reported as inconclusive)
+            let mut again = Verdict::Pass;
+            for _ in 0..3 {
+                let mut obs = Obs::default();
+                again = self.resolve(check(&value, &mut obs));
+                if matches!(again, Verdict::Fail(_)) {
+                    break;
+                }
+            }
             let confirmed = matches!(again, Verdict::Fail(_));
             let reason2 = match again {
                 Verdict::Fail(m) => m,
